@@ -635,7 +635,8 @@ func (g *Gen) fillOpaqueScalar(v reflect.Value) {
 	case reflect.Int8, reflect.Int16, reflect.Int32, reflect.Int64, reflect.Int:
 		v.SetInt(g.signedBig(v.Type().Bits()).Int64())
 	case reflect.String:
-		v.SetString([]string{"", "a", "hello world", strings.Repeat("x", 130)}[g.Rng.Intn(4)])
+		// (texts: empty, ASCII, multi-byte UTF-8 - a length counted in characters is not a length in bytes -, long)
+		v.SetString([]string{"", "a", "hello world", strings.Repeat("x", 130), "h\u00e9llo w\u00f6rld", "\u043f\u0440\u0438\u0432\u0435\u0442", "\u65e5\u672c\u8a9e \U0001F600", strings.Repeat("\u00e9", 100)}[g.Rng.Intn(8)])
 	case reflect.Slice:
 		if v.Type().Elem().Kind() == reflect.Uint8 {
 			b := make([]byte, []int{0, 1, 5, 127, 300}[g.Rng.Intn(5)])
